@@ -35,6 +35,11 @@ claims = {
          "or in a reviewed table keyed by function+ranged expression+body effects, no goroutines/select (with a positive control), and a single seeded math/rand generator created in transformCompile. "
          "One known finding (F6: reflection fix-point visits ssaPkg.Members in map order). Decides these necessary conditions, not equality of any two binaries nor determinism of dependencies and toolchain.",
          "effect analysis over a conservative module call graph on go/ssa (reachability, loop-body effect fingerprints, purity and sort-dominance provers)", "4 C03"),
+ "C06": ("Decides the cache-key clauses: every configuration item (flag, sharedCache field, environment variable, cross-package option) read in the 306-function tool-input region either influences "
+         "the bytes addGarbleToHash writes (appendFlags specialised for forBuildHash=true by boolean constant propagation; data and control influence on live writes, including range-over-func bodies) "
+         "or is exempt with a reason; cache ids are GarbleActionID or domain-separated derivations with matching writers and readers; GarbleActionID has one definition; -V=full is answered through addGarbleToHash; "
+         "the linker stamp is written and compared with the same operands and covers every patch file. Decides these clauses, not the completeness of cmd/go's own action IDs.",
+         "configuration read-set vs. hashed-set analysis (call-graph region, SCCP-style specialisation, backward slices) on go/ssa", "4 C06"),
 }
 
 checks = []
